@@ -2,3 +2,6 @@
 FUNCS = ["experiment.__enter__", "experiment.__exit__", "Scheduler.aio_submit"]
 LEVEL = "proof"
 TRUSTED = []
+
+from bounded.wire import run_c16
+BOUNDED = [("job index over sequences of real runs", run_c16)]
